@@ -53,7 +53,7 @@ def worker_dir(widx: int, seed: int = 0) -> str:
     return WORKER_DIRS[(widx + 3 * seed) % len(WORKER_DIRS)]
 
 
-def worker_env(root: str, tz: str = None) -> dict:
+def worker_env(root: str, tz: str = None, hashseed: int = 0) -> dict:
     env = dict(os.environ)
     if tz and os.path.exists(os.path.join("/usr/share/zoneinfo", tz)):
         env["TZ"] = tz
@@ -62,7 +62,7 @@ def worker_env(root: str, tz: str = None) -> dict:
     env.update(
         PYTHONPATH=f"{REPO}{os.pathsep}{VERIF}",
         PYTHONDONTWRITEBYTECODE="1",
-        PYTHONHASHSEED="0",
+        PYTHONHASHSEED=str(hashseed),       # fixed per worker (runs are repeatable), different between workers
         XDG_DATA_HOME=os.path.join(root, "data"),
         XDG_CONFIG_HOME=os.path.join(root, "config"),
         XDG_CACHE_HOME=os.path.join(root, "cache"),
@@ -95,7 +95,8 @@ def _spawn(pid, tier, seed, widx, nworkers, plan, root):
                 cases=plan["cases_per_worker"], time_s=plan["time_s"], out=out,
                 extra=plan.get("extra", {}))
     p = subprocess.Popen([PY, "-m", "awverif.worker", json.dumps(args)],
-                         env=worker_env(wroot, WORKER_ZONES[(widx + 5 * seed) % len(WORKER_ZONES)]), cwd=wroot,
+                         env=worker_env(wroot, WORKER_ZONES[(widx + 5 * seed) % len(WORKER_ZONES)], hashseed=widx + 16 * seed),
+                         cwd=wroot,
                          stdout=subprocess.DEVNULL, stderr=open(os.path.join(root, f"w{widx}.err"), "w"))
     return p, out
 
@@ -254,7 +255,7 @@ def finish(pid, tier, seed, mod, plan, results, dead, wall):
             path = os.path.join(REPLAY_DIR, f"{pid}-{tier}-s{seed}-{n}.json")
             with open(path, "w") as f:
                 json.dump(dict(property=pid, tier=tier, seed=seed, kind=v["kind"],
-                               detail=v["detail"], case=v["case"], tz=v.get("tz"), wdir=v.get("wdir")), f, indent=1, default=str)
+                               detail=v["detail"], case=v["case"], tz=v.get("tz"), wdir=v.get("wdir"), hashseed=v.get("hashseed")), f, indent=1, default=str)
             print(f"VIOLATION property={pid} replay={path}")
             print(f"  kind={v['kind']} detail={v['detail'][:400]}")
             if n >= 8:
@@ -281,7 +282,7 @@ def replay(pid: str, path: str) -> int:
                     seed=doc.get("seed", 0), widx=0, nworkers=1, cases=1, time_s=600, extra={})
         wroot = os.path.join(root, doc.get("wdir") or "w0")
         os.makedirs(wroot)
-        p = subprocess.run([PY, "-m", "awverif.worker", json.dumps(args)], env=worker_env(wroot, doc.get("tz")),
+        p = subprocess.run([PY, "-m", "awverif.worker", json.dumps(args)], env=worker_env(wroot, doc.get("tz"), hashseed=doc.get("hashseed") or 0),
                            cwd=wroot, timeout=900)
         if not os.path.exists(out):
             print(f"INCONCLUSIVE property={pid} reason=replay worker exit={p.returncode}")
